@@ -405,3 +405,96 @@ func defaultAtUse(w *World, cfgT types.Type, path, want string) bool {
 	}
 	return reads > 0 && ok && tested && merged
 }
+
+// bucketPredicates (C18/C07): the two facts about the bucket that gate protocol features are read from the fields of
+// the server's bucket description that carry them: IsMagma ⇔ the field tagged json:"storageBackend" equals "magma",
+// IsEphemeral ⇔ the field tagged json:"bucketType" equals "ephemeral" (the names and values of Couchbase's REST API).
+func bucketPredicates(c *Ctx, id string) {
+	w := c.W
+	bi := w.NamedType("couchbase", "BucketInfo")
+	c.need(bi != nil, id, "couchbase.BucketInfo")
+	st, _ := bi.Underlying().(*types.Struct)
+	c.need(st != nil, id, "couchbase.BucketInfo is a struct")
+	fieldByTag := func(tag string) string {
+		for i := 0; i < st.NumFields(); i++ {
+			if strings.Split(reflect.StructTag(st.Tag(i)).Get("json"), ",")[0] == tag {
+				return st.Field(i).Name()
+			}
+		}
+		return ""
+	}
+	for _, t := range []struct{ method, tag, value string }{
+		{"IsMagma", "storageBackend", "magma"},
+		{"IsEphemeral", "bucketType", "ephemeral"},
+	} {
+		fn := w.Method("couchbase", "BucketInfo", t.method)
+		field := fieldByTag(t.tag)
+		if fn == nil || field == "" {
+			c.Undecided(id, "predicate:"+t.method, 0, "couchbase.(*BucketInfo).%s or the field decoded from %q not found", t.method, t.tag)
+			continue
+		}
+		c.see(fn)
+		atom := fmt.Sprintf("%s.%s==%q", fn.Params[0].Name(), field, t.value)
+		tt := t
+		c.oae(id, "predicate:"+t.method, fn.Pos(), &Harness{Fn: fn, Bools: []string{atom}, Quiet: quietLog}, func(st *State, out *Outcome) string {
+			b, ok := out.Ret[0].(avBool)
+			if !ok {
+				return "the answer does not depend on " + tt.tag + " == " + strconv.Quote(tt.value) + " alone: " + avString(out.Ret[0])
+			}
+			if b.b != st.B(atom) {
+				return fmt.Sprintf("%s answers %v when %s == %q is %v", tt.method, b.b, tt.tag, tt.value, st.B(atom))
+			}
+			return ""
+		}, fmt.Sprintf("%s ⇔ %s == %q", t.method, t.tag, t.value))
+	}
+}
+
+// restStepErrors (C15/C18): the REST client that fetches the server version and the bucket description at start-up
+// reports every failure: each fallible call in a method of httpClient (ping, request, decode, version parse) has its
+// error reach the method's error result along the edges on which it is non-nil; and a method that returns a nil error
+// returns a non-nil object (version / bucket) — (nil, nil) would crash the gates later instead of failing start-up.
+func restStepErrors(c *Ctx, id string) {
+	w := c.W
+	n := 0
+	for _, fn := range w.ModFuncs {
+		if fn.Parent() != nil || fn.Signature.Recv() == nil || recvTypeName(fn.Signature.Recv().Type()) != "httpClient" || !strings.HasSuffix(pkgOfFn(fn), "/couchbase") {
+			continue
+		}
+		c.see(fn)
+		var dropped []string
+		allInstrs(fn, func(in ssa.Instruction) {
+			call, ok := in.(*ssa.Call)
+			if !ok || !hasErrorResult(call.Common()) {
+				return
+			}
+			cn := calleeName(call.Common())
+			if strings.HasPrefix(cn, "errors.") || strings.HasPrefix(cn, "fmt.") {
+				return
+			}
+			n++
+			ers := errResults(call)
+			if len(ers) == 0 || !reported(errorSinks(ers[0])) {
+				dropped = append(dropped, cn+" @"+w.pos(in.Pos()))
+			}
+		})
+		c.Check(len(dropped) == 0, id, "rest-errors@"+fn.Name(), fn.Pos(), "every fallible step reports its error", "the error of "+strings.Join(dropped, ", ")+" is lost: start-up goes on without the server's answer")
+		// (object, nil) on success: the returns that carry a constant nil error carry a non-nil first result
+		res := fn.Signature.Results()
+		if res.Len() == 2 {
+			bad := ""
+			allInstrs(fn, func(in ssa.Instruction) {
+				r, ok := in.(*ssa.Return)
+				if !ok || len(r.Results) != 2 || deadBlock(in.Block()) {
+					return
+				}
+				if w.Origin(r.Results[1]) == "const(nil)" && w.Origin(r.Results[0]) == "const(nil)" {
+					bad = w.pos(in.Pos())
+				}
+			})
+			c.Check(bad == "", id, "rest-result@"+fn.Name(), fn.Pos(), "no return hands out (nil, nil)", "returns neither an object nor an error at "+bad)
+		}
+	}
+	if n < 5 {
+		c.Undecided(id, "rest-floor", 0, "only %d fallible steps found in the REST client (5 on the reference tree)", n)
+	}
+}
